@@ -21,7 +21,7 @@ import ast
 from .. import cfg
 from ..facts import UNKNOWN, call_name, dotted, norm
 from ..linters import Linters
-from ..util import contains, func_paths, is_call_named, str_consts
+from ..util import alpha, contains, func_paths, is_call_named, str_consts
 from . import shared
 
 GATE = "src.linter_config.ignore.IgnoreDirectiveParser.should_ignore_violation"
@@ -232,6 +232,43 @@ def check(run, ctx):
         run.finding(I9, "ViolationGenerator.generate_violations", f"filter-before-dedup:{call_name(early[0])}", f"generate_violations runs {call_name(early[0])} before deduplicate_violations: a directive on the reported line removes the first window of an overlapping run, so de-duplication keeps the next window instead - the violation reappears one line lower and later ones re-align", f"{gv.module.rel}:{early[0].lineno}")
     else:
         run.ok(I9, "ViolationGenerator.generate_violations", f"deduplicate_violations, then {[call_name(n) for n in fl]}")
+    I10 = run.rule("I10", "an ignore pattern whose trailing separator was stripped is matched against path *components* (or by glob), never by substring containment in the path text", floor=2,
+                   decides="`generated/` silences the files inside that directory only - not `generated_types.rs` next to it")
+    from .c09 import path_predicates
+    n_i10 = 0
+    for f in sorted(repo.funcs.values(), key=lambda x: x.qual):
+        if f.parent is not None or not f.module.name.startswith(("src.linters", "src.core", "src.linter_config")) or not path_predicates(repo, f):
+            continue
+        n_i10 += 1
+        taint, parts = set(), set()
+        assigns = sorted([a for a in ast.walk(f.node) if isinstance(a, (ast.Assign, ast.AnnAssign)) and getattr(a, "value", None) is not None], key=lambda a: a.lineno)
+        def _stripped(e):
+            return any(isinstance(c, ast.Call) and isinstance(c.func, ast.Attribute) and c.func.attr in ("rstrip", "strip", "removesuffix") and c.args and isinstance(repo.fold(f.module, c.args[0]), str) and "/" in repo.fold(f.module, c.args[0]) for c in ast.walk(e)) \
+                   or any(isinstance(x, ast.Name) and x.id in taint for x in ast.walk(e))
+        for _ in range(3):
+            for a in assigns:
+                tg = a.targets[0] if isinstance(a, ast.Assign) else a.target
+                if isinstance(tg, ast.Name):
+                    if _stripped(a.value):
+                        taint.add(tg.id)
+                    if isinstance(a.value, ast.Attribute) and a.value.attr == "parts":
+                        parts.add(tg.id)
+            for g in [g for c in ast.walk(f.node) if isinstance(c, (ast.GeneratorExp, ast.ListComp, ast.SetComp)) for g in c.generators] + [l for l in ast.walk(f.node) if isinstance(l, ast.For)]:
+                if isinstance(g.target, ast.Name) and _stripped(g.iter):
+                    taint.add(g.target.id)
+        bad = None
+        for c in ast.walk(f.node):
+            if isinstance(c, ast.Compare) and len(c.ops) == 1 and isinstance(c.ops[0], (ast.In, ast.NotIn)) and _stripped(c.left):
+                rhs = c.comparators[0]
+                if (isinstance(rhs, ast.Attribute) and rhs.attr == "parts") or (isinstance(rhs, ast.Name) and rhs.id in parts):
+                    continue
+                bad = c
+        sym = f.qual.replace("src.", "", 1)
+        if bad is not None:
+            run.finding(I10, sym, f"stripped-pattern-substring:{alpha(f.node, bad)}", f"{f.qual}: `{norm(bad)}` looks for a pattern that lost its trailing `/` as a substring of the path: the directory boundary is gone, so `generated/` also silences `src/generated_types.rs` (and every other path that merely contains the word)", f"{f.module.rel}:{bad.lineno}")
+        else:
+            run.ok(I10, sym, "no separator-stripped pattern in a substring test")
+    run.require(n_i10 >= 10, f"I10: only {n_i10} path-predicate functions found")
     run.extra["call_resolution"] = f"{cg.n_resolved}/{cg.n_calls}"
     run.extra["rule_classes"] = len(L.rules)
     run.extra["violation_construction_sites"] = len(sinks)
